@@ -677,3 +677,49 @@ pub fn classify(c: &Case, cs: &mut crate::runner::CaseStats) {
         }
     }
 }
+
+/// "Shell" inputs: one generator in the middle of the box surrounded by `n - 1` generators on a
+/// (jittered) sphere around it, placed on a Fibonacci lattice with a generated rotation. The
+/// central cell has about n - 1 faces (hundreds of clipping planes, faces and vertices per cell),
+/// a regime that none of the other families reaches: their cells have 10..40 planes.
+pub fn shell_strategy(max_n: usize) -> BoxedStrategy<Case> {
+    (20usize..=max_n, 0.2f64..0.45, 0.0f64..1.0, prop_oneof![Just(1e-3f64), 0.0f64..1.0], any::<bool>(), 0u32..4, [1.0f64..2.0, 1.0f64..2.0, 1.0f64..2.0], -2i32..=2)
+        .prop_map(|(n, radius, rot, jitter, periodic, anchor_kind, mant, e)| shell_case(n, radius, rot, jitter, periodic, anchor_kind, mant, e))
+        .boxed()
+}
+
+#[allow(clippy::too_many_arguments)]
+pub fn shell_case(n: usize, radius: f64, rot: f64, jitter: f64, periodic: bool, anchor_kind: u32, mant: [f64; 3], e: i32) -> Case {
+    let mut c = Case { dim: 3, periodic, family: "H".into(), ..Case::default() };
+    for k in 0..3 {
+        c.width[k] = if anchor_kind == 0 { 1. } else { mant[k] * 2f64.powi(e) };
+        c.anchor[k] = match anchor_kind {
+            0 | 1 => 0.,
+            2 => -0.5 * c.width[k],
+            _ => 37.25 * c.width[k],
+        };
+    }
+    let centre = [0.5, 0.5, 0.5];
+    let to_box = |t: [f64; 3]| -> [f64; 3] {
+        let mut g = [0.; 3];
+        for k in 0..3 {
+            g[k] = (c.anchor[k] + t[k].clamp(0., 1.) * c.width[k]).max(c.anchor[k]).min(c.anchor[k] + c.width[k]);
+        }
+        g
+    };
+    let mut gens = vec![to_box(centre)];
+    let golden = std::f64::consts::PI * (3. - 5f64.sqrt());
+    let m = n - 1;
+    for i in 0..m {
+        let z = 1. - 2. * (i as f64 + 0.5) / m as f64;
+        let r = (1. - z * z).max(0.).sqrt();
+        let phi = golden * i as f64 + 2. * std::f64::consts::PI * rot;
+        // radial jitter of up to 10 % so that the shell is not exactly co-spherical
+        let h = mixu(i as u32, (jitter * 1e6) as u32) as f64 / u32::MAX as f64;
+        let rad = radius * (1. + 0.1 * jitter * (h - 0.5));
+        gens.push(to_box([centre[0] + rad * r * phi.cos(), centre[1] + rad * r * phi.sin(), centre[2] + rad * z]));
+    }
+    c.gens = gens;
+    repair_distinct(&mut c);
+    c
+}
